@@ -8,10 +8,19 @@
     exchange is not finished — whatever the client sends and wherever it stops;
   * `c10_expire`: when the timer fires on an unfinished exchange the session is cancelled with
     "CONNECT: transaction timeout"; the end then closes the broker connection (C13 `c13_end`).
+  * **all runs** — `c10_deadline_never_postponed`: take ANY reachable state, any connect exchange in it that is
+    not finished, and ANY further sequence of timed events (datagrams of every kind incl. repeated CONNECTs,
+    AUTH, will packets, malformed ones, broker packets, every timer on the way): afterwards the session has
+    ended, or the exchange is finished, or it still has exactly the deadline it had — nothing the client or the
+    broker sends "in the meantime" re-arms or postpones the timer (`Kept`, a component of the frame `F9` of
+    `Lemmas/GwConnCount.lean`, carried through every model function under the invariant `I9`).  With
+    `c10_deadline` (the deadline is creation + 5 s) and `c10_expire` (its expiry cancels the session) this is
+    the model-level content of "ends 5 s after the CONNECT whatever other packets arrive".
   The bound "connect timeout plus one poll interval" is a statement about real time: the harness
   measures it on the real handler under the virtual clock (monitor `Spec.c10`).
 -/
 import Bisquitt.Props.C0809
+import Bisquitt.Props.C09
 import Bisquitt.Spec.Gateway
 
 namespace Bisquitt.Gw
@@ -77,5 +86,46 @@ theorem c10_expire (g : Gw) (t : Tx) (st : ConnSt) (f : ConnFields) (hk : t.kind
       · rfl
       · unfold runFinally; split <;> (try split) <;> rfl
     · rfl
+
+end Bisquitt.Gw
+
+namespace Bisquitt.Gw
+open Bisquitt Gw
+
+/-! ## every run: the deadline of a connect exchange is never postponed -/
+
+theorem i9_kept_run (evs : List (Nat × Event)) : ∀ g : Gw, I9 g → I9 (g.run evs) ∧ Kept g (g.run evs) := by
+  induction evs with
+  | nil => intro g hI; exact ⟨hI, Kept.refl g⟩
+  | cons e rest ih =>
+    intro g hI
+    have st := (F9.step g e.1 e.2).keep hI
+    have r := ih _ st.1
+    have hrun : g.run (e :: rest) = (g.step e.1 e.2).run rest := by unfold Gw.run; rfl
+    rw [hrun]
+    exact ⟨r.1, st.2.2.trans r.2⟩
+
+/-- **C10 (ALL runs).** Whatever arrives in the meantime, an unfinished connect exchange keeps its deadline
+    until it is finished or the session has ended. -/
+theorem c10_deadline_never_postponed (cfg : Cfg) (a b : UInt16) (hist evs : List (Nat × Event)) (t : Tx)
+    (ht : t ∈ ((Gw.init cfg a b).run hist).txs) (hk : isConnKind t.kind = true) (hd : t.done = false) :
+    (((Gw.init cfg a b).run hist).run evs).endedEmitted = true ∨
+    ∃ t' ∈ (((Gw.init cfg a b).run hist).run evs).txs, t'.id = t.id ∧ (t'.done = true ∨ t'.timer = t.timer) := by
+  have hI := (i9_kept_run hist _ (i9_init cfg a b)).1
+  have hK := (i9_kept_run evs _ hI).2
+  rcases hK.2 with h | h
+  · exact Or.inl h
+  · obtain ⟨t', ht', hid, _, _, htm⟩ := h t ht hk
+    exact Or.inr ⟨t', ht', hid, htm hd⟩
+
+/-- non-vacuity: after a CONNECT datagram (no authentication, will flag set: the exchange waits for WILLTOPIC) the
+    session holds an unfinished connect exchange whose deadline is 5 s after the datagram; the WILLTOPIC 3 s later
+    moves the exchange on and leaves the deadline where it was; a packet that is illegal at that point ends the
+    session instead (the other disjunct) -/
+example :
+    let g := (Gw.init ⟨false, none, none, 10, 2, []⟩ 1 10).run [(100, .sn (encode (.connect true true 1 60 [0x63])))]
+    (g.txs.map fun t => (isConnKind t.kind, t.done, t.timer)) = [(true, false, some 5100)] ∧
+    ((g.run [(3100, .sn (encode (.willtopic 0 false [0x61])))]).txs.map fun t => (t.done, t.timer)) = [(false, some 5100)] ∧
+    (g.run [(3100, .sn (encode (.pingreq [])))]).endedEmitted = true := by decide
 
 end Bisquitt.Gw
